@@ -69,6 +69,7 @@ type c19Params struct {
 	Flags    string     `json:"flags,omitempty"` // bad-flag | garble-flag-after | gogarble-nomatch | no-o
 	DebugDir string     `json:"debugdir,omitempty"`
 	Inject   *c19Inject `json:"inject,omitempty"`
+	Ungated  bool       `json:"ungated,omitempty"` // run outside the gate (full rebuilds; end-state invariants only)
 }
 
 func c19BreakSource(src, how string) error {
@@ -282,7 +283,23 @@ func (c c19) Generate(e *Env) ([]*Case, error) {
 			}
 			idx = append(idx, i)
 		}
-		if sample > 0 && sample < len(idx) {
+		if base.DebugDir != "" && sample > 0 {
+			// Events before the nested go command (debugdir handling) fail fast and are
+			// cheap; events after it (restore from cache, clean-up) cost a full rebuild
+			// each: take most of the sample from the former.
+			var pre, post []int
+			for _, i := range idx {
+				if steps[i].Seq <= 25 {
+					pre = append(pre, i)
+				} else {
+					post = append(post, i)
+				}
+			}
+			rng.Shuffle(len(post), func(i, j int) { post[i], post[j] = post[j], post[i] })
+			nPost := max(2, sample/5)
+			idx = append(pre, post[:min(nPost, len(post))]...)
+			sort.Ints(idx)
+		} else if sample > 0 && sample < len(idx) {
 			rng.Shuffle(len(idx), func(i, j int) { idx[i], idx[j] = idx[j], idx[i] })
 			idx = idx[:sample]
 			sort.Ints(idx)
@@ -355,14 +372,20 @@ func (c c19) Generate(e *Env) ([]*Case, error) {
 	// 3. every pre-existing -debugdir target, on warm caches (restore-from-cache path) ...
 	states := []string{"absent", "empty", "owned", "owned-stale", "foreign-files", "foreign-subdirs", "symlink-owned", "symlink-foreign", "regular-file"}
 	for _, st := range states {
-		add(c19Params{Cmd: "build", State: "warm", DebugDir: st})
+		p := c19Params{Cmd: "build", State: "warm", DebugDir: st}
+		// Accepted targets mean a full -a rebuild (garble forces it for -debugdir);
+		// in the quick tier only one of them runs under the gate.
+		if !thorough && (st == "absent" || st == "empty" || st == "owned" || st == "symlink-owned") {
+			p.Ungated = true
+		}
+		add(p)
 	}
 	// ... with injected failures in the debugdir handling of the top-level process ...
-	if err := injectAll(c19Params{Cmd: "build", State: "warm", DebugDir: "owned-stale"}, q(0, 10)); err != nil {
+	if err := injectAll(c19Params{Cmd: "build", State: "warm", DebugDir: "owned-stale"}, q(40, 10)); err != nil {
 		return nil, err
 	}
 	if thorough {
-		if err := injectAll(c19Params{Cmd: "build", State: "warm", DebugDir: "absent"}, 20); err != nil {
+		if err := injectAll(c19Params{Cmd: "build", State: "warm", DebugDir: "absent"}, 30); err != nil {
 			return nil, err
 		}
 		// ... and one cold -debugdir build (full -a rebuild) so that cold and warm trees are compared.
@@ -419,7 +442,7 @@ func (c c19) Run(e *Env, cs *Case) (*Outcome, error) {
 		}
 	}
 	var s *engine.Sim
-	ungated := p.State == "cold" && cfg.Name == "debugdir"
+	ungated := p.Ungated || (p.State == "cold" && cfg.Name == "debugdir")
 	if ungated {
 		_, se, code := w.RunPlain(src, cfg, "build", "-o", filepath.Join(w.Out, "bin"), ".")
 		cl.ExitCode = code
